@@ -505,6 +505,12 @@ func (x *Exec) builtin(st *State, fr *Frame, b *ssa.Builtin, c *ssa.CallCommon, 
 		return one(nil)
 	case "print", "println":
 		return one(nil)
+	case "ssa:wrapnilchk":
+		if p, ok := args[0].(*PtrV); ok && p.Obj == 0 {
+			x.addObl(st, "panic", "value method called using nil pointer", x.pos(site), tf.False)
+			return nil
+		}
+		return one(args[0])
 	case "recover":
 		return one(&IfaceV{})
 	case "min", "max":
